@@ -33,7 +33,7 @@ def gen_tables(gen, pres):
                     if dup and ts:
                         ts = ts + [ts[0]]
                     out.append(' '.join(ts))
-            return out
+            return out[::-1] if gen.get('order') == 'rev' else out
         return rows(K, lwin), rows(Kr, rwin)
     if kind == 'strs':
         return list(gen['L']), list(gen['R'])
@@ -494,3 +494,71 @@ def w_marith(job):
                          'model-loss': ex['model_predicted_loss']} if ex['model_predicted_loss'] else {'model-ok': cases},
             'extra': ex, 'viol': viol,
             'sample': {'measure': meas, 'N': N, 'thresholds': job['ts'][:3]}}
+
+
+# ------------------------------------------- reduction-lemma self-test (DESIGN 2.4)
+
+def w_lemma(job):
+    """With a deliberately weakened arithmetic injected by the harness (prefix length shortened by one /
+    required overlap raised by one), every (m,n,o) that the join loses under SOME arrangement of
+    UNIV(K) must also be lost under the extremal arrangement (packed PAIR1).  Validates the
+    canonicalisation used by the size-N layers; it is not a property of the library, so a failure is
+    reported in the evidence (lemma_failures) and as a note, never as a violation."""
+    import importlib
+    import py_stringsimjoin.filter.filter_utils as fu
+    meas, t, mode, K = job['meas'], job['t'], job['mode'], job['K']
+    pres = PRESENTATIONS[0]
+    orig_gpl, orig_ot = fu.get_prefix_length, fu.get_overlap_threshold
+
+    def weak_gpl(n, m_, t_, tok):
+        p = orig_gpl(n, m_, t_, tok)
+        return max(p - 1, 1) if (mode == 'prefix' and n > 0) else p
+
+    def weak_ot(l, r, m_, t_, tok):
+        return orig_ot(l, r, m_, t_, tok) + (1 if mode == 'overlap' else 0)
+    mods = [importlib.import_module('py_stringsimjoin.' + m) for m in
+            ('index.position_index', 'filter.position_filter')]
+    saved = [(m, 'get_prefix_length', getattr(m, 'get_prefix_length')) for m in mods if hasattr(m, 'get_prefix_length')]
+    saved += [(mods[1], 'get_overlap_threshold', mods[1].get_overlap_threshold)]
+    try:
+        for m in mods:
+            if hasattr(m, 'get_prefix_length'):
+                m.get_prefix_length = weak_gpl
+        mods[1].get_overlap_threshold = weak_ot
+        lvals, rvals = gen_tables({'gen': 'univ', 'K': K}, pres)
+        L, R = mkframe(lvals, pres), mkframe(rvals, pres)
+        out = call_join(meas, L, R, make_tokenizer(['ws', True]), t, '>=', True)
+        got, _ = index_output(out, L['id'].tolist(), R['id'].tolist(), True)
+        lm, rm = masks_for(lvals, rvals, ['ws', True])
+        judge = PairJudge(meas, t, '>=')
+        MU, musts = set(), set()
+        for i, a in enumerate(lm):
+            for j, b in enumerate(rm):
+                if a and b:
+                    m_, n_, o_ = a.bit_count(), b.bit_count(), (a & b).bit_count()
+                    if o_ and judge(m_, n_, o_)[0] == 'must':
+                        musts.add((m_, n_, o_))
+                        if (i, j) not in got:
+                            MU.add((m_, n_, o_))
+        cases = sorted(musts)
+        res = w_packed_pair1({'prop': 'C01', 'meas': meas, 't': t, 'op': '>=', 'cases': cases})
+        # all lost extremal cases (the worker caps its violation list, so recompute from the join)
+        lv, rv = [], []
+        for sid, (m_, n_, o_) in enumerate(cases):
+            a, b = pair1_strings(pres, sid, m_, n_, o_)
+            lv.append(a)
+            rv.append(b)
+        L2, R2 = mkframe(lv, pres), mkframe(rv, pres)
+        out2 = call_join(meas, L2, R2, make_tokenizer(['ws', True]), t, '>=', True)
+        g2, _ = index_output(out2, L2['id'].tolist(), R2['id'].tolist(), True)
+        ME = {cases[i] for i in range(len(cases)) if (i, i) not in g2}
+    finally:
+        for m, name, f in saved:
+            setattr(m, name, f)
+    bad = sorted(MU - ME)
+    return {'cases': len(cases), 'calls': 3, 'nontrivial': len(MU),
+            'outcomes': {'lost-some-arrangement': len(MU), 'lost-extremal': len(ME)},
+            'extra': {'lemma_cases': len(cases), 'lemma_lost_in_universe': len(MU),
+                      'lemma_lost_extremal': len(ME), 'lemma_failures': len(bad)},
+            'viol': [], 'sample': {'measure': meas, 'threshold': t, 'weakening': mode,
+                                   'lost_in_universe': sorted(MU)[:4], 'counterexamples': bad[:4]}}
